@@ -460,6 +460,17 @@ def encodePnmMonoFixed (pad : List Bool → List Bool) (img : Img Bool) : Bytes 
 
 def decodePnmMonoFixed (file : Bytes) (s : Settings) : Option (Img Bool) := decodePnmMonoWith pnmMonoRowDecFixed file s
 
+/-- the fixed writer as it executes: ONE row buffer of (w+7)/8 bytes (zero initialised) is reused for every row; std::copy
+    overwrites bits 0..w-1, the unused bits keep what mirror+negate of the previous row left there -/
+def pnmMonoWriteFixed (w : Nat) : Bytes → List (List Bool) → Bytes
+  | _, [] => []
+  | buf, r :: rs =>
+    let out := pnmMonoRowEncFixed w ((buf.flatMap bitsLsb).drop w) r
+    out ++ pnmMonoWriteFixed w out rs
+
+def encodePnmMonoFixedExec (img : Img Bool) : Bytes :=
+  pnmHeader 4 img.w img.h ++ pnmMonoWriteFixed img.w (List.replicate ((img.w + 7) / 8) 0) img.rows
+
 /-! ## TARGA -/
 
 /-- targa writer::write header (18 bytes): no id, no colour map, type 2 (rgb), origin 0,0, descriptor 8 for 32 bit -/
